@@ -43,6 +43,12 @@ CLAIMS = {
  "C20": ("Lock discipline of the registry proved on subscribe, Unsubscribe, AddEvent and their caller ResolveExecutable: every read and write of Root.subscriptions happens with root.subLock held by the executing thread (guarded-field obligations at each access), no double acquisition, every acquisition released on every return path (also per loop iteration), the resolve walk returns with the set of held mutexes unchanged; Unsubscribe leaves no matching subscriber registered when it returns.",
          "sequential semantics inside a critical section; linearizability of the two-phase publish and 'at most once per publish' under interleaving are not decided; callbacks (Match/Send/Unsubscribe, user resolvers) are assumed not to call back into the registry",
          "4 C20"),
+ "C12": ("Lock discipline of the lazily discovered reflection bindings proved on assureType, getReflectType, metaCheck, regField, RegisterField and resolveReflect: every read and write of Object.meta, FieldDef.goField and FieldDef.method happens with the mutex of the same object / field definition held by the executing thread; no double acquisition (mutex identities are injective per object and field); every acquisition, including deferred unlocks, is released on every return path and per loop iteration; reflected resolver methods are called with no library mutex held; the whole resolve walk returns with the set of held mutexes unchanged.",
+         "data-race freedom follows from the lock discipline by the standard lock-invariant argument under Go's DRF-SC guarantee (trusted); FieldDef.args (rewritten only by RegisterField at set-up time) and Input.meta are outside the claim; 'each response equals the response of the request run alone' is not decided",
+         "4 C12"),
+ "C14": ("ParseReader and AddTypes are proved to put back the type table and the directive table they found whenever they return an error, on every error path (syntax, duplicate, undefined reference, failed extension, validation, failing reader); the working copy they load into (typeList.dup) is proved to be a new object with its own list array and its own name index holding exactly the members of the source, and the source is not written, so the restored tables are the ones that were there before; AddTypes also leaves root.schema alone.",
+         "root.schema after a failing ParseReader is a recorded known finding; writes by Extend into member lists of type objects shared between the saved and the working table (a failed extension) are not covered: the contracts decide the tables, not every object reachable from them; 'a later valid load behaves as if the failed one never happened' follows only for the tables",
+         "4 C14"),
 }
 NA = {
  "C16": "relational over orderings/partitions of whole loads: a function contract speaks about one call, and deriving the relation needs a functional grammar specification of the whole single-pass SDL parser (DESIGN.md section 4, C16)",
